@@ -17,7 +17,7 @@ import numpy as np
 
 import sim  # noqa: F401
 from sim import build
-from sim.core import attempt, exc_tag
+from sim.core import attempt, bulk_tier, exc_tag
 from sim.oracle import missed_tuple, snap, snap_diff
 
 PROPERTY = "C06"
@@ -67,11 +67,16 @@ def generate(rng, seed, part):
     if rng.random() < 0.15:
         return generate_collection(rng)
     ndim = rng.choice([1, 1, 2, 2, 3])
-    axes = [build.gen_axis(rng, max_bins=6 if ndim == 1 else (4 if ndim == 2 else 3), allow_gaps=False,
-                           families=["static", "numpy", "fixed", "exp"]) for _ in range(ndim)]
+    bulk = bulk_tier(rng)
+    mb = {1: 6, 2: 4, 3: 3}[ndim] if not bulk else {1: rng.choice([300, 5000]), 2: 80, 3: 18}[ndim]
+    axes = [build.gen_axis(rng, max_bins=mb, min_bins=1 if not bulk else (mb * 9) // 10, allow_gaps=False,
+                           families=["static", "numpy", "fixed", "exp"] if not bulk else ["numpy", "fixed"])
+            for _ in range(ndim)]
     wkind = rng.choice(build.WEIGHT_KINDS)
     pools = [build.axis_pool(build.spec_bins(a)) for a in axes]
     n = rng.choice([0, 1, 3, 6, 12, 20])
+    if bulk:
+        n = rng.choice([20, 3000])
     entries = []
     for _ in range(n + 6):
         vals = [build.draw_value(rng, p, inside_only=rng.random() < 0.7) for p in pools]
